@@ -394,6 +394,15 @@ func (rpc *RPC) split(limit int) iter.Seq[RPC] {
 		// We have to split the RPC into multiple parts
 		nextRPC = RPC{from: rpc.from}
 
+		// The partial message and test extension fields are indivisible; send
+		// them in an RPC of their own.
+		if rpc.Partial != nil || rpc.TestExtension != nil {
+			extRPC := RPC{RPC: pb.RPC{Partial: rpc.Partial, TestExtension: rpc.TestExtension}, from: rpc.from}
+			if !yield(extRPC) {
+				return
+			}
+		}
+
 		// Merge/Append Subscriptions
 		for _, sub := range rpc.Subscriptions {
 			if nextRPC.Subscriptions = append(nextRPC.Subscriptions, sub); nextRPC.Size() > limit {
@@ -466,6 +475,45 @@ func (rpc *RPC) split(limit int) iter.Seq[RPC] {
 						}
 						nextRPC = RPC{RPC: pb.RPC{Control: &pb.ControlMessage{
 							Iwant: []*pb.ControlIWant{{MessageIDs: []string{msgID}}},
+						}}, from: rpc.from}
+					}
+				}
+			}
+
+			// The extensions control message is indivisible as well.
+			if ctl.Extensions != nil {
+				if nextRPC.Control.Extensions = ctl.Extensions; nextRPC.Size() > limit {
+					nextRPC.Control.Extensions = nil
+					if !yield(nextRPC) {
+						return
+					}
+					nextRPC = RPC{RPC: pb.RPC{Control: &pb.ControlMessage{Extensions: ctl.Extensions}}, from: rpc.from}
+				}
+			}
+
+			for _, idontwant := range ctl.GetIdontwant() {
+				if len(nextRPC.Control.Idontwant) == 0 {
+					// As with IWANTs a single IDONTWANT is enough,
+					// since there are no topic IDs here.
+					newIDontWant := &pb.ControlIDontWant{}
+					if nextRPC.Control.Idontwant = append(nextRPC.Control.Idontwant, newIDontWant); nextRPC.Size() > limit {
+						nextRPC.Control.Idontwant = nextRPC.Control.Idontwant[:len(nextRPC.Control.Idontwant)-1]
+						if !yield(nextRPC) {
+							return
+						}
+						nextRPC = RPC{RPC: pb.RPC{Control: &pb.ControlMessage{
+							Idontwant: []*pb.ControlIDontWant{newIDontWant},
+						}}, from: rpc.from}
+					}
+				}
+				for _, msgID := range idontwant.GetMessageIDs() {
+					if nextRPC.Control.Idontwant[0].MessageIDs = append(nextRPC.Control.Idontwant[0].MessageIDs, msgID); nextRPC.Size() > limit {
+						nextRPC.Control.Idontwant[0].MessageIDs = nextRPC.Control.Idontwant[0].MessageIDs[:len(nextRPC.Control.Idontwant[0].MessageIDs)-1]
+						if !yield(nextRPC) {
+							return
+						}
+						nextRPC = RPC{RPC: pb.RPC{Control: &pb.ControlMessage{
+							Idontwant: []*pb.ControlIDontWant{{MessageIDs: []string{msgID}}},
 						}}, from: rpc.from}
 					}
 				}
